@@ -251,6 +251,145 @@ def toCrs (E : Env K) (proj : C01.CrsRec → C01.CrsRec → Pt K → Pt K) (auto
 
 end
 
+/-! ### `clip_lon180`, the tail of `to_crs`, `Geometry.transform`, `BoundingBox.to_crs`, `sides` -/
+
+section
+variable {K : Type}
+
+mutual
+/-- `shapely.ops.transform(func, geom)` where `func` sees one coordinate sequence at a time
+(a point, a line, each ring of a polygon separately; multi-geometries part by part) -/
+def mapRings (f : List (Pt K) → List (Pt K)) : Geom K → Geom K
+  | .point p => match f [p] with
+    | q :: _ => .point q
+    | [] => .point p
+  | .multiPoint ps => .multiPoint (ps.map (fun p => match f [p] with | q :: _ => q | [] => p))
+  | .lineString cs => .lineString (f cs)
+  | .linearRing cs => .linearRing (f cs)
+  | .polygon ext holes => .polygon (f ext) (holes.map f)
+  | .multiLineString gs => .multiLineString (mapRingsList f gs)
+  | .multiPolygon gs => .multiPolygon (mapRingsList f gs)
+  | .collection gs => .collection (mapRingsList f gs)
+def mapRingsList (f : List (Pt K) → List (Pt K)) : List (Geom K) → List (Geom K)
+  | [] => []
+  | g :: gs => mapRings f g :: mapRingsList f gs
+end
+
+end
+
+section
+variable {K : Type} [Zero K] [Add K] [Sub K] [Neg K] [LT K] [LE K] [DecidableLT K] [DecidableLE K]
+
+/-- Python `abs(x)` -/
+def absK (x : K) : K := if x < 0 then -x else x
+
+/-- `_pick_clip(xx)` of `clip_lon180`: the sign of the majority of the longitudes that are not
+next to the antimeridian (`cc >= 0` → `180`).  `c180` is the number 180. -/
+def pickClip (c180 thresh : K) (xs : List K) : K :=
+  let cc : Int := xs.foldl (fun (cc : Int) x =>
+    if absK x < thresh then (if 0 < x then cc + 1 else cc - 1) else cc) 0
+  if 0 ≤ cc then c180 else -c180
+
+/-- `_clip_180(xx, clip)`: `x if abs(x) < thresh else clip` -/
+def clip180 (thresh clip : K) (xs : List K) : List K :=
+  xs.map (fun x => if absK x < thresh then x else clip)
+
+/-- `transformer(xx, yy)` of `clip_lon180` on one coordinate sequence -/
+def clipRing (c180 thresh : K) (cs : List (Pt K)) : List (Pt K) :=
+  let clip := pickClip c180 thresh (cs.map (·.x))
+  cs.map (fun p => ⟨if absK p.x < thresh then p.x else clip, p.y⟩)
+
+/-- `clip_lon180(geom, tol)` with `thresh = 180 - tol` (geom.py:1068-1102); the `Multi*` branch
+re-assembles the clipped parts with `multigeom`, which for non-empty parts of one kind is the
+same multi-geometry. -/
+def clipLon180 (c180 tol : K) (g : Geom K) : Geom K := mapRings (clipRing c180 (c180 - tol)) g
+
+end
+
+section
+variable {K : Type} [Zero K] [Add K] [Sub K] [Neg K] [Mul K] [Div K] [LT K] [LE K] [DecidableLT K] [DecidableLE K]
+
+/-- `Geometry.to_crs(crs, resolution, wrapdateline)` with `check_and_fix=False` (geom.py:681-750).
+`geographic` is `crs.geographic` of the target; `chop` is `chop_along_antimeridian(geom, 0.1)`
+(shapely `split` along the projected 180° meridian: a parameter); `c180`, `eps` are the numbers
+`180` and `1e-4`.  Only with `wrapdateline and crs.geographic` is anything chopped or clipped. -/
+def toCrsFull (E : Env K) (proj : C01.CrsRec → C01.CrsRec → Pt K → Pt K) (autoRes : Geom K → K)
+    (chop : Geom K → Res (Geom K)) (c180 eps : K)
+    (g : Tagged K) (target : C01.Tag) (geographic : Bool) (res : Resolution K) (wrapdateline : Bool) :
+    Res (Tagged K) :=
+  match target with
+  | none => .error .valueError
+  | some t =>
+    if C01.tagEq g.crs (some t) then .ok g
+    else match g.crs with
+      | none => .error .valueError
+      | some s =>
+        let r? : Option K := match res with
+          | .none => Option.none
+          | .nonfinite => Option.none
+          | .auto => some (autoRes g.geom)
+          | .val r => some r
+        let densified : Res (Geom K) := match r? with
+          | Option.none => .ok g.geom
+          | some r => if 0 < r then segmentize E r g.geom else .ok g.geom
+        match densified with
+        | .error e => .error e
+        | .ok geom =>
+          if wrapdateline && geographic then
+            match chop geom with
+            | .error e => .error e
+            | .ok chopped => .ok ⟨some t, clipLon180 c180 eps (mapPts (proj s t) chopped)⟩
+          else .ok ⟨some t, mapPts (proj s t) geom⟩
+
+end
+
+/-- the `crs=` argument of `Geometry.transform`: `Unset()` keeps the CRS, anything else replaces it -/
+inductive CrsArg where
+  | unset
+  | set (t : C01.Tag)
+
+/-- `Geometry.transform(func, crs=…)` / `A * geom` (geom.py:648-675): every coordinate through
+`func`, CRS kept unless overridden (`crs=None` removes it) -/
+def transformGeom {K : Type} (f : Pt K → Pt K) (arg : CrsArg) (g : Tagged K) : Tagged K :=
+  ⟨match arg with | .unset => g.crs | .set t => t, mapPts f g.geom⟩
+
+/-- `sides(poly)`: one two-point line per edge of the exterior ring, tagged with the polygon's CRS -/
+def sides {K : Type} : List (Pt K) → List (Pt K × Pt K)
+  | a :: b :: rest => (a, b) :: sides (b :: rest)
+  | _ => []
+
+section
+variable {K : Type} [LT K] [DecidableLT K]
+
+def minK (a b : K) : K := if b < a then b else a
+def maxK (a b : K) : K := if a < b then b else a
+
+/-- `geom.boundingbox` of a non-empty vertex list: `(minx, miny, maxx, maxy)` (shapely bounds) -/
+def boundsOf : List (Pt K) → Option (K × K × K × K)
+  | [] => none
+  | p :: ps => some (ps.foldl (fun (b : K × K × K × K) q =>
+      (minK b.1 q.x, minK b.2.1 q.y, maxK b.2.2.1 q.x, maxK b.2.2.2 q.y)) (p.x, p.y, p.x, p.y))
+
+/-- `BoundingBox.polygon`: `box(left, bottom, right, top)` as the exterior ring of `geom.box` -/
+def boxRing (l b r t : K) : List (Pt K) := [⟨l, b⟩, ⟨l, t⟩, ⟨r, t⟩, ⟨r, b⟩, ⟨l, b⟩]
+
+end
+
+section
+variable {K : Type} [Zero K] [Add K] [Sub K] [Mul K] [Div K] [LT K] [LE K] [DecidableLT K] [DecidableLE K]
+
+/-- `BoundingBox.to_crs(crs, resolution=…)` = `self.polygon.to_crs(crs, …).boundingbox`
+(geom.py:187-191): the box as a 5-vertex polygon through `to_crs`, then the bounds of what
+comes back. -/
+def bboxToCrs (E : Env K) (proj : C01.CrsRec → C01.CrsRec → Pt K → Pt K) (autoRes : Geom K → K)
+    (crs : C01.Tag) (l b r t : K) (target : C01.Tag) (res : Resolution K) :
+    Res (C01.Tag × Option (K × K × K × K)) :=
+  match toCrs E proj autoRes ⟨crs, .polygon (boxRing l b r t) []⟩ target res with
+  | .error e => .error e
+  | .ok g' => .ok (g'.crs, boundsOf (vertices g'.geom))
+
+end
+
 /-! ### NaN harmonisation of `transformer_to_crs` (numpy-array branch) -/
 
 inductive Coord (K : Type) where
